@@ -90,11 +90,11 @@ MAXW = 2 ** 31 - 1
 CLIENT_EXTRA = [('L_data+p0', 'L', S), ('L_data+p255', 'L', S), ('L_data_es+p7', 'L', S), ('R_wu_max', 'R', S), ('R_wu_max', 'R', P),
                 ('R_data+p7', 'R', S), ('R_data_es+p0', 'R', P),
                 ('R_open:R_resp', 'R', S), ('R_open:R_resp_es', 'R', S), ('R_open:R_info', 'R', S), ('R_open:R_trailers_es', 'R', S),
-                ('R_open:R_pp', 'R', S), ('R_open:R_resp', 'R', P), ('R_cont', 'R', P)]
+                ('R_open:R_pp', 'R', S), ('R_open:R_resp', 'R', P), ('R_cont', 'R', P), ('R_iws_toggle', 'R', S)]
 SERVER_EXTRA = [('L_data+p0', 'L', S), ('L_data+p255', 'L', S), ('L_data_es+p7', 'L', S), ('L_data_es+p255', 'L', P), ('R_wu_max', 'R', S),
                 ('R_wu_max', 'R', P), ('R_data+p7', 'R', S),
                 ('R_open:R_req', 'R', S), ('R_open:R_req_es', 'R', S), ('R_open:R_trailers_es', 'R', S), ('R_open:R_req', 'R', P),
-                ('R_cont', 'R', P)]
+                ('R_cont', 'R', P), ('R_iws_toggle', 'R', S)]
 EXTRA = {True: CLIENT_EXTRA, False: SERVER_EXTRA}
 
 
@@ -102,6 +102,8 @@ def base_name(name):
     """The alphabet symbol whose expectations a realisation shares."""
     if '+p' in name:
         return name.split('+p')[0]
+    if name.endswith('+big'):
+        return name[:-4]
     if name == 'R_wu_max':
         return 'R_wu'
     return name
@@ -138,7 +140,8 @@ def new_stream():
 def new_model(client, start):
     m = {'client': client, 'st': {S: new_stream(), P: new_stream(), P2: new_stream()}, 'hi_in': 0, 'hi_out': 0,
          'win': {S: 65535, P: 65535, P2: 65535},     # E's send window per stream as the peer has granted it
-         'block': None}                               # (stream, equivalent symbol, rest of the block) while a header block is open
+         'block': None,                               # (stream, equivalent symbol, rest of the block) while a header block is open
+         'iws': 65535}                                # the peer's INITIAL_WINDOW_SIZE as last announced
     if start == 'upgraded':
         s = m['st'][S]
         if client:
@@ -152,7 +155,7 @@ def new_model(client, start):
 
 def clone_model(m):
     return {'client': m['client'], 'st': {k: dict(v) for k, v in m['st'].items()}, 'hi_in': m['hi_in'], 'hi_out': m['hi_out'],
-            'refusals': m.get('refusals', 0), 'win': dict(m['win']), 'block': m['block']}
+            'refusals': m.get('refusals', 0), 'win': dict(m['win']), 'block': m['block'], 'iws': m['iws']}
 
 
 def e_end(s):
@@ -183,6 +186,8 @@ def expect_local(m, name, sid):
     if name in ('L_data', 'L_data_es'):
         v, fn = _expect_local(m, name, sid)
         cost = 3 + (0 if pad is None else pad + 1)
+        if v == 'ok' and cost > m['win'][sid]:
+            return 'refused', None            # FlowControlError: the peer's window (lowered by a SETTINGS frame, maybe) has no room
 
         def fn2(mm):
             mm['win'][sid] -= cost
@@ -289,7 +294,7 @@ def _expect_local(m, name, sid):
 def expect_recv(m, name, sid):
     """-> list of allowed reactions: (class, detail, apply_fn)
        accept: detail = exact event-name list; stream-error: detail = set of codes; connection-error: set of codes; ignore: None"""
-    if '+p' in name:
+    if '+' in name:
         name = base_name(name)
     client = m['client']
     s = m['st'][sid]
@@ -374,8 +379,18 @@ def expect_recv(m, name, sid):
         def fn(mm):
             mm['st'][sid].update(state='closed', closed_by='rst_recv')
         return [(ACCEPT, ['StreamReset'], fn)]
+    if name == 'R_iws_toggle':
+        new_iws = 0 if m['iws'] else 65535
+
+        def fn(mm):
+            for k in mm['win']:
+                mm['win'][k] += new_iws - mm['iws']
+            mm['iws'] = new_iws
+        if any(v['state'] not in ('idle', 'closed') and m['win'][k] + new_iws - m['iws'] > MAXW for k, v in m['st'].items()):
+            return [(CERR, {FLOW_CONTROL_ERROR}, None)]          # RFC 7540 6.9.2: a stream window pushed past 2^31-1
+        return [(ACCEPT, ['RemoteSettingsChanged'], fn)]
     if name in ('R_wu', 'R_wu_max'):
-        inc = 5 if name == 'R_wu' else max(1, MAXW - m['win'][sid])
+        inc = 5 if name == 'R_wu' else min(MAXW, max(1, MAXW - m['win'][sid]))
         if state == 'idle':
             return perr
         if state == 'closed':
@@ -496,8 +511,12 @@ def frame_for(client, name, sid, m=None):
         return wire.build_continuation(sid, m['block'][2])
     if '+p' in name:
         return wire.build_data(sid, b'abc', end_stream=base_name(name).endswith('_es'), pad=pad_of(name))
+    if name.endswith('+big'):
+        return wire.build_data(sid, b'B' * 16384)
+    if name == 'R_iws_toggle':
+        return wire.build_settings([(4, 0 if m['iws'] else 65535)])
     if name == 'R_wu_max':
-        return wire.build_window_update(sid, max(1, MAXW - m['win'][sid]))
+        return wire.build_window_update(sid, min(MAXW, max(1, MAXW - m['win'][sid])))
     if name in ('R_req', 'R_req_es'):
         return wire.build_headers(sid, hb(REQ), end_stream=name.endswith('_es'))
     if name in ('R_resp', 'R_resp_es'):
@@ -806,7 +825,8 @@ def run_case(idx, rng, tier, rep):
     client = rng.random() < 0.5
     start = rng.choice(STARTS)
     alphabet = ALPH[client]
-    if rng.random() < 0.6:
+    extended = rng.random() < 0.6
+    if extended:
         alphabet = alphabet + EXTRA[client] * 2
         rep.count('random_walks_with_parameter_variants_and_split_blocks')
     j = Judge(rep, client, start)
@@ -826,7 +846,19 @@ def run_case(idx, rng, tier, rep):
         return True
 
     for _ in range(14):
-        if m['block'] is not None and rng.random() < 0.25:
+        dead = [k for k, v in m['st'].items() if v['state'] == 'hcr' or (v['state'] == 'closed' and v['closed_by'] in ('rst_sent', 'rst_recv'))]
+        if extended and dead and m['block'] is None and rng.random() < 0.35:
+            # full-size DATA frames on a stream that can take no more DATA: each is answered like the first one, however many come
+            sym = ('R_data+big', 'R', rng.choice(dead))
+            rep.count('full_size_data_frames_on_dead_streams')
+        elif extended and m['iws'] and m['win'][S] < m['iws'] <= 65535 and m['st'][S]['state'] in ('open', 'hcr') and m['block'] is None \
+                and rng.random() < 0.3:
+            sym = ('R_iws_toggle', 'R', S)        # octets are in flight on S: a window of 0 now means a negative one for S
+        elif extended and m['win'][S] <= 0 and m['st'][S]['state'] in ('open', 'hcr') and m['block'] is None and rng.random() < 0.4:
+            # the peer has taken the send window away (to zero or below): ending the stream costs no window and still works
+            sym = ('L_end', 'L', S)
+            rep.count('stream_ended_locally_with_no_send_window_left')
+        elif m['block'] is not None and rng.random() < 0.25:
             # the continuation arrives on another stream than the block it would continue
             sym = ('R_cont', 'R', rng.choice([x for x in (S, P, P2) if x != m['block'][0]]))
         elif rng.random() < 0.9:
